@@ -2,7 +2,7 @@
    bruteforce form = marginal form, efficiency, symmetry, null player, linearity, OR-game value. *)
 From Coq Require Import List Arith ZArith QArith Lia Bool Setoid Morphisms Permutation Lqa FinFun.
 Import ListNotations.
-Open Scope Q_scope.
+Local Open Scope Q_scope.
 From DS Require Import Util.SumQ Spec.Shapley.
 Lemma qn_S k : qn (S k) == qn k + 1.
 Proof. unfold qn. rewrite Nat2Z.inj_succ, <- Z.add_1_r, inject_Z_plus. reflexivity. Qed.
